@@ -88,6 +88,7 @@ type GenCfg struct {
 	ForceLimits bool
 	SynData     bool // SYN segments may carry data
 	Short       bool // bias stream lengths down (many-connection lifecycle runs)
+	FinalTTC    bool // sometimes a last flush with separate data and closing cut-offs, closing later than data
 	Wide        bool // once in a while: more connections and buffered pages than the pools' first allocation holds
 }
 
@@ -409,6 +410,18 @@ func Generate(c *sim.Ctx, cfg GenCfg) *Plan {
 		if e.At > last {
 			last = e.At
 		}
+	}
+	if cfg.FinalTTC && c.Chance(100) {
+		// Before the final flush-all: a flush that releases data older than T
+		// and closes what has been idle since TC, with TC later than T. What is
+		// buffered from between the two is neither released nor may it be lost
+		// to an early close: the flush-all still has to deliver it.
+		age := int64(2+c.Draw(20)) * 100_000
+		ageC := int64(c.Draw(int(age/100_000))) * 100_000
+		last += 500_000
+		p.Events = append(p.Events, Event{At: last, Ord: ord, K: EvFlushTTC, Age: age, AgeC: ageC})
+		ord++
+		c.Fault("final_flush_closing_cutoff_later_than_data_cutoff")
 	}
 	p.Events = append(p.Events, Event{At: last + 1_000_000, Ord: ord, K: EvFlushAll})
 	return p
